@@ -19,6 +19,10 @@ class Inconclusive(Exception):
     pass
 
 
+class StopShrink(BaseException):
+    pass
+
+
 def load_known(pid):
     p = os.path.join(VERIF, "known_findings.json")
     if not os.path.exists(p):
@@ -94,9 +98,8 @@ def _worker(modname, pid, tier, k, seedv, nex, outp, shrink_budget):
     @given(mod.strategy(tier))
     def test(case):
         if state["t_first"] is not None and time.time() - state["t_first"] > shrink_budget:
-            # shrink budget exhausted: only the best failing example still fails
-            if M.canon(case) != state["best"]:
-                return
+            # shrink budget exhausted: leave Hypothesis with the best failing example found so far
+            raise StopShrink()
         cx.evaluations += 1
         try:
             mod.run_case(case, cx)
@@ -112,7 +115,7 @@ def _worker(modname, pid, tier, k, seedv, nex, outp, shrink_budget):
     res = {"worker": k, "seed": seedv}
     try:
         test()
-    except Violation:
+    except (Violation, StopShrink):
         res["failure"] = state["fail"]
     except Exception as e:
         # an exception that is not a Violation is a harness problem, never a property violation
@@ -253,7 +256,7 @@ def run(pid, tier, modname=None):
     # 2. generated search
     ctx = multiprocessing.get_context("fork")
     procs = []
-    budget = 45 if tier == "quick" else 240
+    budget = 30 if tier == "quick" else 180
     for k in range(nw):
         outp = os.path.join(rdir, "w%d.json" % k)
         p = ctx.Process(target=_worker, args=(modname, pid, tier, k, seedv * 1000 + k, per, outp, budget))
